@@ -213,7 +213,13 @@ func roundTrip(period int, ops []MOp, seed int64) (vs []Viol) {
 			if d.PES.Header.StreamID != wantSID {
 				add("pes-stream-id", "call %d: stream id %#x, want %#x", es[k].idx, d.PES.Header.StreamID, wantSID)
 			}
-			w := normPES(toRefPES(c.Hdr, wantSID))
+			wh := c.Hdr
+			if (wantSID == astits.StreamIDPaddingStream || wantSID == astits.StreamIDPrivateStream2) && wh != nil {
+				// padding_stream and private_stream_2 packets have no optional header (ISO 13818-1 table 2-21; the two ids the
+				// library treats that way - the others of the table are finding F10): the one in the struct is not carried
+				wh = &astits.PESHeader{StreamID: wantSID}
+			}
+			w := normPES(toRefPES(wh, wantSID))
 			g := normPES(toRefPES(d.PES.Header, d.PES.Header.StreamID))
 			if !reflect.DeepEqual(w, g) {
 				add("pes-header", "call %d %s: PES header fields differ\n got  %s\n want %s", es[k].idx, c.Op, mc.Canon(g), mc.Canon(w))
@@ -344,6 +350,9 @@ func checkC01(c *mc.Ctx) {
 	scens = append(scens,
 		scen{"rt-core-A-p2", 2, setupA, coreAlpha, depth + 2},
 		scen{"rt-core-AB-p3", 3, setupAB, coreAlpha, depth + 2})
+	// a stream removed and added again, several times over, with and without writes in between: the receiver is
+	// still assembling the PID's last unit from before the removal
+	scens = append(scens, scen{"rt-readd-cycles-p40", 40, []MOp{opAddA, opAddB, opPcrB, opDataA1}, []MOp{opRmA, opAddA, opDataA1, opDataB1}, depth + 5})
 	for _, sc := range scens {
 		rad := mc.Radix{}
 		total := int64(0)
@@ -395,7 +404,7 @@ func checkC01(c *mc.Ctx) {
 	}
 	// (ii) shape sweep of a single WriteData followed by one small unit on the same PID
 	sweepC01(c)
-	c.Ev.Require("history-with-2-or-more-pes", "payload-over-65535", "exact-fit", "one-byte-stuffing", "af-room-exactly-header", "start-code-lookalike-payload", "every-stream-type")
+	c.Ev.Require("history-with-2-or-more-pes", "payload-over-65535", "exact-fit", "one-byte-stuffing", "af-room-exactly-header", "start-code-lookalike-payload", "every-stream-type", "every-stream-id")
 }
 
 type shape struct {
@@ -517,6 +526,23 @@ func sweepC01(c *mc.Ctx) {
 		}
 		c.Ev.Distinct(fmt.Sprintf("stream-type|%d", i))
 	})
+	// every stream_id value a PES packet may carry (0xbc..0xff), given explicitly: ids whose packets have no optional
+	// header (program_stream_map, padding_stream, private_stream_2, ECM, EMM, DSMCC, H.222.1 type E, directory) travel
+	// and come back like the others - one PES per WriteData call, the payload as given
+	ns := int64(0x100 - 0xbc)
+	dones := mc.ParFor(ns, c.OverBudget, func(i int64) {
+		sid := uint8(0xbc + i)
+		ops := []MOp{opAddA, opAddB, opPcrA,
+			{K: "data", PID: 0x100, Len: 10, SID: sid}, {K: "data", PID: 0x101, Len: 300, SID: sid}, {K: "data", PID: 0x100, Len: 200, SID: sid, AF: "raipcr"}, opTables,
+			{K: "data", PID: 0x101, Len: 5, SID: sid}, {K: "data", PID: 0x100, Len: 1, SID: sid}}
+		for _, v := range roundTrip(3, ops, c.Seed) {
+			c.Rep.Report(v.Sig, map[string]any{"kind": "mux-roundtrip", "scenario": "stream-ids", "period": 3, "ops": ops, "message": v.Msg})
+		}
+		c.Ev.Distinct(fmt.Sprintf("stream-id|%d", sid))
+	})
+	c.Ev.Class("every-stream-id", dones)
+	c.Ev.AddScenario(mc.Scenario{Name: "stream-ids", SpaceSize: ns, Executed: dones, Exhaustive: dones == ns,
+		Bound: "every explicit stream_id 0xbc..0xff: two streams, five units (1..300 bytes, with and without adaptation field), tables in between"})
 	c.Ev.Class("every-stream-type", donet)
 	c.Ev.AddScenario(mc.Scenario{Name: "stream-types", SpaceSize: nt, Executed: donet, Exhaustive: donet == nt,
 		Bound: "every stream_type value 0..255 on one stream (and its complement on a second one): two streams, five units, tables in between"})
